@@ -123,7 +123,7 @@ theorem lookupD_map_bump [BEq κ] [LawfulBEq κ] [DecidableEq κ] (m : List (κ 
       by_cases hek' : e.1 = k'
       · have hkk : k' = k := by rw [← hek, ← hek']
         have hb' : (e.1 == k') = true := by simp [hek']
-        simp [hb', hkk, hek]
+        simp [hkk, hek]
       · have hb' : (e.1 == k') = false := by simp [hek']
         have h1 : ¬ k' = e.1 := fun h => hek' h.symm
         simp only [hb', Bool.false_eq_true, if_false, h1, false_or]
@@ -217,5 +217,405 @@ theorem foldl_bump_keys [BEq κ] [LawfulBEq κ] [DecidableEq κ] (ks : List κ) 
         · exact .inl (.inl h)
         · exact .inl (.inr h)
         · exact .inr h
+
+/-! ## The tally as independent folds -/
+
+/-- the table keys one record contributes: `db/rel` of every block reference with a relation whose filenode is not 0 -/
+def tableKeys (bs : List BlockRef) : List String :=
+  bs.filterMap fun b => match b.rel with
+    | some r => if r.rel != 0 then some (tableKey r) else none
+    | none => none
+
+theorem tallyBlocks_eq (tables : List (String × Nat)) (bs : List BlockRef) :
+    tallyBlocks tables bs = (tableKeys bs).foldl bump tables := by
+  induction bs generalizing tables with
+  | nil => rfl
+  | cons b bs ih =>
+    unfold tallyBlocks tableKeys
+    cases hr : b.rel with
+    | none => simp only [List.filterMap_cons, hr]; exact ih tables
+    | some r =>
+      simp only [List.filterMap_cons, hr]
+      by_cases h0 : (r.rel != 0) = true
+      · simp only [h0, if_true, List.foldl_cons]; exact ih _
+      · simp only [h0, Bool.false_eq_true, if_false]; exact ih tables
+
+/-- the commit/abort verdict a record gives to its transaction -/
+def verdict (r : Record) : Option String :=
+  if r.xid != 0 && r.rmid == 1 then
+    if containsSub r.operation "COMMIT" then some "COMMIT"
+    else if containsSub r.operation "ABORT" then some "ABORT" else none
+  else none
+
+def statusStep (m : List (Nat × String)) (r : Record) : List (Nat × String) :=
+  match verdict r with
+  | some v => put m r.xid v
+  | none => m
+
+def xidKeys (rs : List Record) : List Nat := (rs.map (·.xid)).filter (· != 0)
+
+theorem tallyRecord_ops (t : Tally) (r : Record) : (tallyRecord t r).ops = bump t.ops r.operation := by
+  unfold tallyRecord; simp only []; repeat' split
+  all_goals rfl
+
+theorem tallyRecord_tables (t : Tally) (r : Record) : (tallyRecord t r).tables = (tableKeys r.blocks).foldl bump t.tables := by
+  rw [← tallyBlocks_eq]
+  unfold tallyRecord; simp only []; repeat' split
+  all_goals rfl
+
+theorem tallyRecord_count (t : Tally) (r : Record) : (tallyRecord t r).recordCount = t.recordCount + 1 := by
+  unfold tallyRecord; simp only []; repeat' split
+  all_goals rfl
+
+theorem tallyRecord_seg (t : Tally) (r : Record) : (tallyRecord t r).segmentCount = t.segmentCount := by
+  unfold tallyRecord; simp only []; repeat' split
+  all_goals rfl
+
+theorem tallyRecord_txnOps (t : Tally) (r : Record) :
+    (tallyRecord t r).txnOps = if r.xid != 0 then bump t.txnOps r.xid else t.txnOps := by
+  unfold tallyRecord; simp only []; repeat' split
+  all_goals first | rfl | simp_all
+
+theorem tallyRecord_txnStatus (t : Tally) (r : Record) : (tallyRecord t r).txnStatus = statusStep t.txnStatus r := by
+  unfold tallyRecord statusStep verdict; simp only []; repeat' split
+  all_goals first | rfl | simp_all
+
+/-- the tally `t` is the tally `t0` advanced over the records `rs` (field by field) -/
+structure Advanced (t0 t : Tally) (rs : List Record) : Prop where
+  ops : t.ops = (rs.map (·.operation)).foldl bump t0.ops
+  tables : t.tables = (rs.flatMap fun r => tableKeys r.blocks).foldl bump t0.tables
+  count : t.recordCount = t0.recordCount + rs.length
+  txnOps : t.txnOps = (xidKeys rs).foldl bump t0.txnOps
+  txnStatus : t.txnStatus = rs.foldl statusStep t0.txnStatus
+
+theorem advanced_foldl (rs : List Record) (t : Tally) : Advanced t (rs.foldl tallyRecord t) rs := by
+  induction rs generalizing t with
+  | nil => exact ⟨rfl, rfl, rfl, rfl, rfl⟩
+  | cons r rs ih =>
+    obtain ⟨h1, h2, h3, h4, h5⟩ := ih (tallyRecord t r)
+    rw [List.foldl_cons]
+    refine ⟨?_, ?_, ?_, ?_, ?_⟩
+    · rw [h1, tallyRecord_ops]; rfl
+    · rw [h2, tallyRecord_tables, List.flatMap_cons, List.foldl_append]
+    · rw [h3, tallyRecord_count, List.length_cons]; omega
+    · rw [h4, tallyRecord_txnOps]
+      unfold xidKeys
+      simp only [List.map_cons, List.filter_cons]
+      by_cases h0 : (r.xid != 0) = true
+      · simp [h0]
+      · simp [h0]
+    · rw [h5, tallyRecord_txnStatus]; rfl
+
+theorem advanced_trans {t0 t1 t2 : Tally} {a b : List Record} (h1 : Advanced t0 t1 a) (h2 : Advanced t1 t2 b) :
+    Advanced t0 t2 (a ++ b) := by
+  obtain ⟨a1, a2, a3, a4, a5⟩ := h1
+  obtain ⟨b1, b2, b3, b4, b5⟩ := h2
+  refine ⟨?_, ?_, ?_, ?_, ?_⟩
+  · rw [b1, a1, List.map_append, List.foldl_append]
+  · rw [b2, a2, List.flatMap_append, List.foldl_append]
+  · rw [b3, a3, List.length_append]; omega
+  · rw [b4, a4]; unfold xidKeys; rw [List.map_append, List.filter_append, List.foldl_append]
+  · rw [b5, a5, List.foldl_append]
+
+/-- number of files of the list that ParseWALFile accepts -/
+def acceptedCount (dir : Dir) (names : List String) : Nat := (names.filter fun n => (recsOpt dir n).isSome).length
+
+theorem noteFile_fields (t : Tally) (data : Bytes) :
+    (noteFile t data).ops = t.ops ∧ (noteFile t data).tables = t.tables ∧ (noteFile t data).recordCount = t.recordCount ∧
+    (noteFile t data).txnOps = t.txnOps ∧ (noteFile t data).txnStatus = t.txnStatus ∧
+    (noteFile t data).segmentCount = t.segmentCount + 1 := by
+  unfold noteFile; simp only []; repeat' split
+  all_goals exact ⟨rfl, rfl, rfl, rfl, rfl, rfl⟩
+
+theorem advanced_note {t0 t : Tally} {rs : List Record} (data : Bytes) (h : Advanced (noteFile t0 data) t rs) :
+    Advanced t0 t rs := by
+  obtain ⟨n1, n2, n3, n4, n5, _⟩ := noteFile_fields t0 data
+  obtain ⟨h1, h2, h3, h4, h5⟩ := h
+  exact ⟨by rw [h1, n1], by rw [h2, n2], by rw [h3, n3], by rw [h4, n4], by rw [h5, n5]⟩
+
+theorem foldl_tallyRecord_seg (rs : List Record) (t : Tally) : (rs.foldl tallyRecord t).segmentCount = t.segmentCount := by
+  induction rs generalizing t with
+  | nil => rfl
+  | cons r rs ih => rw [List.foldl_cons, ih, tallyRecord_seg]
+
+theorem tallyFiles_eq (dir : Dir) (names : List String) (t0 : Tally) :
+    ∃ t, tallyFiles dir t0 names = .ok t ∧ Advanced t0 t (names.flatMap (recsOf dir)) ∧
+      t.segmentCount = t0.segmentCount + acceptedCount dir names := by
+  induction names generalizing t0 with
+  | nil => exact ⟨t0, rfl, ⟨rfl, rfl, rfl, rfl, rfl⟩, rfl⟩
+  | cons n ns ih =>
+    unfold tallyFiles tallyFile
+    rw [parseWALFile_dir]
+    simp only [ok_bind]
+    cases hr : recsOpt dir n with
+    | none =>
+      simp only [pure_eq_ok, ok_bind]
+      obtain ⟨t, ht, ha, hs⟩ := ih t0
+      refine ⟨t, ht, ?_, ?_⟩
+      · simpa [List.flatMap_cons, recsOf, hr] using ha
+      · simpa [acceptedCount, List.filter_cons, hr] using hs
+    | some rs =>
+      simp only [pure_eq_ok, ok_bind]
+      obtain ⟨t, ht, ha, hs⟩ := ih (rs.foldl tallyRecord (noteFile t0 (readFile dir n)))
+      refine ⟨t, ht, ?_, ?_⟩
+      · have hadv := advanced_note _ (advanced_foldl rs (noteFile t0 (readFile dir n)))
+        have := advanced_trans hadv ha
+        simpa [List.flatMap_cons, recsOf, hr] using this
+      · rw [hs, foldl_tallyRecord_seg, (noteFile_fields t0 _).2.2.2.2.2]
+        simp [acceptedCount, hr]; omega
+
+/-! ## Transaction status: the last verdict wins -/
+
+def lookupS : List (Nat × String) → Nat → Option String
+  | [], _ => none
+  | e :: m, k => if e.1 == k then some e.2 else lookupS m k
+
+theorem statusOf_eq (m : List (Nat × String)) (x : Nat) : statusOf m x = (lookupS m x).getD "IN_PROGRESS" := by
+  unfold statusOf
+  induction m with
+  | nil => rfl
+  | cons e m ih =>
+    simp only [List.find?_cons, lookupS]
+    by_cases h : (e.1 == x) = true
+    · simp [h]
+    · simp only [Bool.not_eq_true] at h
+      simp only [h]
+      exact ih
+
+theorem lookupS_map_put (m : List (Nat × String)) (k : Nat) (v : String) (x : Nat) :
+    lookupS (m.map fun kv => if kv.1 == k then (kv.1, v) else kv) x =
+      if x = k ∧ x ∈ keys m then some v else lookupS m x := by
+  induction m with
+  | nil => simp [lookupS, keys]
+  | cons e m ih =>
+    simp only [List.map_cons, keys, List.mem_cons] at ih ⊢
+    by_cases hek : e.1 = k
+    · have hb : (e.1 == k) = true := by simp [hek]
+      simp only [hb, if_true, lookupS]
+      by_cases hek' : e.1 = x
+      · have hkk : x = k := by rw [← hek, ← hek']
+        simp [hkk, hek]
+      · have hb' : (e.1 == x) = false := by simp [hek']
+        have h1 : ¬ x = e.1 := fun h => hek' h.symm
+        simp only [hb', Bool.false_eq_true, if_false, h1, false_or]
+        exact ih
+    · have hb : (e.1 == k) = false := by simp [hek]
+      simp only [hb, Bool.false_eq_true, if_false, lookupS]
+      by_cases hek' : e.1 = x
+      · have hkk : ¬ x = k := by rw [← hek']; exact hek
+        have hb' : (e.1 == x) = true := by simp [hek']
+        simp [hb', hkk]
+      · have hb' : (e.1 == x) = false := by simp [hek']
+        have h1 : ¬ x = e.1 := fun h => hek' h.symm
+        simp only [hb', Bool.false_eq_true, if_false, h1, false_or]
+        exact ih
+
+theorem lookupS_not_mem (m : List (Nat × String)) (k : Nat) (h : ¬ k ∈ keys m) : lookupS m k = none := by
+  induction m with
+  | nil => rfl
+  | cons e m ih =>
+    simp only [keys, List.map_cons, List.mem_cons, not_or] at h
+    unfold lookupS
+    rw [if_neg (by simp only [beq_iff_eq]; exact fun e' => h.1 e'.symm)]
+    exact ih h.2
+
+theorem lookupS_append_single (m : List (Nat × String)) (k x : Nat) (v : String) (h : ¬ k ∈ keys m) :
+    lookupS (m ++ [(k, v)]) x = if x = k then some v else lookupS m x := by
+  induction m with
+  | nil =>
+    by_cases hk : x = k
+    · subst hk; simp [lookupS]
+    · have : ¬ k = x := fun e => hk e.symm
+      simp [lookupS, hk, this]
+  | cons e m ih =>
+    simp only [keys, List.map_cons, List.mem_cons, not_or] at h
+    simp only [List.cons_append, lookupS]
+    by_cases hek' : e.1 = x
+    · have : ¬ x = k := by rw [← hek']; exact fun e' => h.1 e'.symm
+      simp [hek', this]
+    · have hb : (e.1 == x) = false := by simp [hek']
+      simp only [hb, Bool.false_eq_true, if_false]
+      exact ih h.2
+
+theorem put_lookup (m : List (Nat × String)) (k : Nat) (v : String) (x : Nat) :
+    lookupS (put m k v) x = if x = k then some v else lookupS m x := by
+  unfold put
+  by_cases h : m.any (·.1 == k) = true
+  · rw [if_pos h, lookupS_map_put]
+    have hk := (any_iff_mem_keys m k).mp h
+    by_cases hkk : x = k
+    · subst hkk; simp [hk]
+    · simp [hkk]
+  · rw [if_neg h]
+    exact lookupS_append_single m k x v (fun hc => h ((any_iff_mem_keys m k).mpr hc))
+
+/-- the verdict of the last record of transaction `x` that has one -/
+def lastVerdict (rs : List Record) (x : Nat) : Option String :=
+  rs.reverse.findSome? fun r => if r.xid = x then verdict r else none
+
+theorem statusStep_lookup (m : List (Nat × String)) (r : Record) (x : Nat) :
+    lookupS (statusStep m r) x = ((if r.xid = x then verdict r else none) <|> lookupS m x) := by
+  unfold statusStep
+  cases hv : verdict r with
+  | none => simp
+  | some v =>
+    simp only [put_lookup]
+    by_cases h : x = r.xid
+    · subst h; simp
+    · have : ¬ r.xid = x := fun e => h e.symm
+      simp [h, this]
+
+theorem foldl_status_lookup (rs : List Record) (m : List (Nat × String)) (x : Nat) :
+    lookupS (rs.foldl statusStep m) x = (lastVerdict rs x <|> lookupS m x) := by
+  induction rs generalizing m with
+  | nil => simp [lastVerdict]
+  | cons r rs ih =>
+    rw [List.foldl_cons, ih, statusStep_lookup]
+    unfold lastVerdict
+    rw [List.reverse_cons, List.findSome?_append]
+    simp only [List.findSome?_cons, List.findSome?_nil]
+    cases (List.findSome? (fun r => if r.xid = x then verdict r else none) rs.reverse) with
+    | some v => simp
+    | none =>
+      cases (if r.xid = x then verdict r else none) <;> simp
+
+/-! ## sort.Slice on distinct keys = insertion sort: a sorted permutation -/
+
+theorem insertSorted_perm (le : α → α → Bool) (x : α) (l : List α) : (insertSorted le x l).Perm (x :: l) := by
+  induction l with
+  | nil => exact List.Perm.refl _
+  | cons y ys ih =>
+    unfold insertSorted
+    split
+    · exact List.Perm.refl _
+    · exact (List.Perm.cons y ih).trans (List.Perm.swap x y ys)
+
+theorem sortBy_perm (le : α → α → Bool) (l : List α) : (sortBy le l).Perm l := by
+  induction l with
+  | nil => exact List.Perm.refl _
+  | cons x xs ih => exact (insertSorted_perm le x _).trans (List.Perm.cons x ih)
+
+theorem insertSorted_sorted (x : Nat × Nat) (l : List (Nat × Nat)) (h : l.Pairwise fun a b => a.1 ≤ b.1) :
+    (insertSorted (fun a b => decide (a.1 ≤ b.1)) x l).Pairwise fun a b => a.1 ≤ b.1 := by
+  induction l with
+  | nil => simp [insertSorted]
+  | cons y ys ih =>
+    unfold insertSorted
+    rw [List.pairwise_cons] at h
+    split
+    · rename_i hle
+      simp only [decide_eq_true_eq] at hle
+      rw [List.pairwise_cons]
+      refine ⟨?_, List.pairwise_cons.mpr h⟩
+      intro z hz
+      rcases List.mem_cons.mp hz with rfl | hz
+      · exact hle
+      · exact Nat.le_trans hle (h.1 z hz)
+    · rename_i hle
+      simp only [decide_eq_true_eq] at hle
+      rw [List.pairwise_cons]
+      refine ⟨?_, ih h.2⟩
+      intro z hz
+      have := (insertSorted_perm _ x ys).mem_iff.mp hz
+      rcases List.mem_cons.mp this with rfl | hz'
+      · omega
+      · exact h.1 z hz'
+
+theorem sortBy_sorted (l : List (Nat × Nat)) :
+    (sortBy (fun a b => decide (a.1 ≤ b.1)) l).Pairwise fun a b => a.1 ≤ b.1 := by
+  induction l with
+  | nil => simp [sortBy]
+  | cons x xs ih => exact insertSorted_sorted x _ ih
+
+theorem lookupD_of_mem [BEq κ] [LawfulBEq κ] [DecidableEq κ] (m : List (κ × Nat)) (k : κ) (v : Nat)
+    (hm : (k, v) ∈ m) (hn : (keys m).Nodup) : lookupD m k = v := by
+  induction m with
+  | nil => cases hm
+  | cons e m ih =>
+    simp only [keys, List.map_cons, List.nodup_cons] at hn
+    unfold lookupD
+    rcases List.mem_cons.mp hm with rfl | hm'
+    · simp
+    · have : ¬ e.1 = k := by
+        intro he
+        apply hn.1
+        rw [he]
+        exact List.mem_map.mpr ⟨(k, v), hm', rfl⟩
+      rw [if_neg (by simp only [beq_iff_eq]; exact this)]
+      exact ih hm' hn.2
+
+theorem mem_xidKeys (rs : List Record) (x : Nat) : x ∈ xidKeys rs ↔ x ≠ 0 ∧ ∃ r ∈ rs, r.xid = x := by
+  unfold xidKeys
+  simp only [List.mem_filter, List.mem_map, bne_iff_ne, ne_eq]
+  constructor
+  · rintro ⟨⟨r, hr, rfl⟩, h0⟩; exact ⟨h0, r, hr, rfl⟩
+  · rintro ⟨h0, r, hr, rfl⟩; exact ⟨⟨r, hr, rfl⟩, h0⟩
+
+/-- ScanWALDirectory as tallies over the records of the accepted files -/
+theorem scan_summary (dir : Dir) : ∃ s, scanWALDirectory dir = .ok s ∧
+    s.recordCount = (allRecords dir).length ∧
+    s.segmentCount = acceptedCount dir (walFiles dir) ∧
+    (∀ op, lookupD s.ops op = ((allRecords dir).map (·.operation)).count op) ∧
+    (∀ key, lookupD s.tables key = ((allRecords dir).flatMap fun r => tableKeys r.blocks).count key) ∧
+    (keys s.ops).Nodup ∧ (keys s.tables).Nodup ∧
+    (s.transactions.map (·.xid)).Pairwise (· < ·) ∧
+    (∀ x, x ∈ s.transactions.map (·.xid) ↔ x ≠ 0 ∧ ∃ r ∈ allRecords dir, r.xid = x) ∧
+    (∀ t ∈ s.transactions, t.operations = (xidKeys (allRecords dir)).count t.xid ∧
+      t.status = (lastVerdict (allRecords dir) t.xid).getD "IN_PROGRESS") := by
+  obtain ⟨t, ht, ⟨h1', h2', h3', h4', h5'⟩, hs'⟩ := tallyFiles_eq dir (walFiles dir) {}
+  have h1 : t.ops = ((allRecords dir).map (·.operation)).foldl bump [] := h1'
+  have h2 : t.tables = ((allRecords dir).flatMap fun r => tableKeys r.blocks).foldl bump [] := h2'
+  have h3 : t.recordCount = 0 + (allRecords dir).length := h3'
+  have h4 : t.txnOps = (xidKeys (allRecords dir)).foldl bump [] := h4'
+  have h5 : t.txnStatus = (allRecords dir).foldl statusStep [] := h5'
+  have hs : t.segmentCount = 0 + acceptedCount dir (walFiles dir) := hs'
+  clear h1' h2' h3' h4' h5' hs'
+  unfold scanWALDirectory
+  rw [ht]
+  simp only [ok_bind, pure_eq_ok]
+  refine ⟨_, rfl, ?_, ?_, ?_, ?_, ?_, ?_, ?_, ?_, ?_⟩
+  · simpa using h3
+  · simpa using hs
+  · intro op; simp only []; rw [h1, foldl_bump_lookup]; simp [lookupD]
+  · intro key; simp only []; rw [h2, foldl_bump_lookup]; simp [lookupD]
+  · simp only []; rw [h1]; exact (foldl_bump_keys _ [] (by simp [keys])).1
+  · simp only []; rw [h2]; exact (foldl_bump_keys _ [] (by simp [keys])).1
+  · simp only [List.map_map]
+    have hkeys := foldl_bump_keys (xidKeys (allRecords dir)) ([] : List (Nat × Nat)) (by simp [keys])
+    have hperm := sortBy_perm (fun a b : Nat × Nat => decide (a.1 ≤ b.1)) t.txnOps
+    have hsorted := sortBy_sorted t.txnOps
+    have hnd : ((sortBy (fun a b : Nat × Nat => decide (a.1 ≤ b.1)) t.txnOps).map (·.1)).Nodup := by
+      rw [(hperm.map _).nodup_iff]
+      have := hkeys.1; rw [← h4] at this; exact this
+    have hle : ((sortBy (fun a b : Nat × Nat => decide (a.1 ≤ b.1)) t.txnOps).map (·.1)).Pairwise (· ≤ ·) := by
+      rw [List.pairwise_map]; exact hsorted
+    have : (fun (e : Nat × Nat) => e.1) = ((fun (t : TxInfo) => t.xid) ∘ fun e => (⟨e.1, statusOf t.txnStatus e.1, e.2⟩ : TxInfo)) := rfl
+    rw [← this]
+    exact (hle.and hnd).imp (fun ⟨a, b⟩ => by omega)
+  · intro x
+    simp only [List.map_map]
+    have hkeys := foldl_bump_keys (xidKeys (allRecords dir)) ([] : List (Nat × Nat)) (by simp [keys])
+    have hperm := sortBy_perm (fun a b : Nat × Nat => decide (a.1 ≤ b.1)) t.txnOps
+    have : (fun (e : Nat × Nat) => e.1) = ((fun (t : TxInfo) => t.xid) ∘ fun e => (⟨e.1, statusOf t.txnStatus e.1, e.2⟩ : TxInfo)) := rfl
+    rw [← this, (hperm.map _).mem_iff]
+    have h := hkeys.2 x
+    rw [← h4] at h
+    unfold keys at h
+    rw [h, mem_xidKeys]
+    simp [keys]
+  · intro tx htx
+    simp only [List.mem_map] at htx
+    obtain ⟨e, he, rfl⟩ := htx
+    have hperm := sortBy_perm (fun a b : Nat × Nat => decide (a.1 ≤ b.1)) t.txnOps
+    have hmem := hperm.mem_iff.mp he
+    have hkeys := foldl_bump_keys (xidKeys (allRecords dir)) ([] : List (Nat × Nat)) (by simp [keys])
+    have hnd := hkeys.1; rw [← h4] at hnd
+    constructor
+    · simp only []
+      have := lookupD_of_mem t.txnOps e.1 e.2 hmem hnd
+      rw [← this, h4, foldl_bump_lookup]; simp [lookupD]
+    · simp only []
+      rw [statusOf_eq, h5, foldl_status_lookup]
+      simp [lookupS]
 
 end PgVerif.Proofs.Wal
